@@ -1,6 +1,6 @@
 (* Property C02: transpose, adjoint and left-multiplication agree with the represented matrix. *)
 From Coq Require Import List Arith Bool ZArith.
-From Core Require Import Base Kron Op OpProofs Algebra AlgebraProofs AlgebraMore ZIInst.
+From Core Require Import Base Kron Op OpProofs MatVec Algebra AlgebraProofs AlgebraMore ZIInst.
 Import ListNotations.
 
 (* x @ A / X @ A: the backward product (explicit _rmatmat where the code has one, otherwise the linear transpose of
@@ -9,6 +9,12 @@ Theorem C02_rmatmat_den : forall (R : Type) (RR : Ring R) (CR : CRing R) (e : op
   wf e = true -> nc X = fst (shape e) -> aeq (rmatmat e X) (rspec e X).
 Proof. intros R RR CR e X Hwf HX. exact (proj2 (mm_den e Hwf) X HX). Qed.
 Print Assumptions C02_rmatmat_den.
+
+(* x @ A with a 1-D operand *)
+Theorem C02_rmatvec_den : forall (R : Type) (RR : Ring R) (CR : CRing R) (e : op (R:=R)) (x : nat -> R),
+  wf e = true -> forall j, j < snd (shape e) -> rmatvec e x j = sum (fst (shape e)) (fun i => rmul (x i) (den e i j)).
+Proof. intros R RR CR. exact (@rmatvec_den R RR CR). Qed.
+Print Assumptions C02_rmatvec_den.
 
 (* A.T: the rewriting rules of cola.fns.transpose; [sa] = A.isa(SelfAdjoint). The self-adjoint shortcut needs the
    declaration to make the matrix symmetric (true for real self-adjoint operators). *)
